@@ -217,16 +217,18 @@ Step == \/ Check \/ Begin \/ ExecBasic \/ ExecIf \/ ExecMulti
         \/ LoopEnter \/ LoopFallOut \/ DoBreak \/ DoContinue
         \/ FallOffEnd
 
-\* picking the case out of the sequence Cs (hand written for M, recorded for T): two-level
+\* picking the case out of a sequence (hand written for M, recorded for T): two-level
 \* fan-out so that the workers share the cases
 NChunks == 128
 NoCase == [x \in {} |-> 0]
 Init == chunk = 0 /\ i = 0 /\ cs = NoCase /\ st = "idle" /\ cur = 0 /\ ctl = <<>> /\ blk = 0 /\ quiet = 0
 PickChunk == /\ chunk = 0 /\ chunk' \in 1..NChunks /\ UNCHANGED <<i, cs, st, cur, ctl, blk, quiet>>
-PickCase(Cs) == /\ chunk > 0 /\ i = 0
-                /\ \E k \in {x \in 1..Len(Cs) : x % NChunks = chunk - 1} : i' = k /\ cs' = Cs[k]
-                /\ st' = Phases[1] /\ UNCHANGED <<chunk, cur, ctl, blk, quiet>>
-NextOn(Cs) == PickChunk \/ PickCase(Cs) \/ Step
+\* (the action that binds a case is written out in Reloop_MC / Reloop_Trace over their own
+\* case sequence: an action with the sequence as parameter would have TLC print the whole
+\* sequence in every error trace)
+PickGuard == chunk > 0 /\ i = 0
+InChunk(len) == {x \in 1..len : x % NChunks = chunk - 1}
+Picked == st' = Phases[1] /\ UNCHANGED <<chunk, cur, ctl, blk, quiet>>
 \* what an error trace shows (the case itself is known to the harness through i)
 ShownT == [i |-> i, st |-> st, cur |-> cur, ctl |-> ctl, blk |-> blk, quiet |-> quiet]
 
